@@ -1069,7 +1069,7 @@ def judge(ctx: fw.Ctx, case: dict, obs: dict, stub: bool, cases: list[fw.Case], 
     if nontrivial(case, obs):
         ctx.nontriv(['fn', stub, case])
     ctx.sample({'function_level': {'reason': obs['reason'], 'selected': obs['selected'], 'records': obs['body_records'],
-                                   'invoked': obs['calls'], 'closed': obs['fho']}}, limit=8)
+                                   'invoked': obs['calls'], 'closed': obs['fho']}}, limit=2)
 
 
 # --------------------------------------------------------------------------------------
@@ -1222,3 +1222,27 @@ def differential(ctx: fw.Ctx) -> None:
     ctx.differential('progress_pipeline', HEADER, pipeline, shard=120)
     ctx.differential('progress_children', HEADER, children, shard=120)
     ctx.differential('progress_algebra', HEADER, algebra, shard=120)
+
+
+def replay(ctx: fw.Ctx, body: dict) -> bool:
+    """Re-run a function-level failing input of a replay file on the current tree: True iff the property still fails on it.
+    (To be called from c02.replay when body['case'].get('layer', '').startswith('function').)"""
+    K.load()
+    ctx.matchers = {}
+    c = body.get('case') or {}
+    sink: list[fw.Case] = []
+    if c.get('layer') == 'function-history':
+        hist = c['history']
+        hist['script'] = int_keys(hist['script'])
+        run_history(ctx, hist, sink)
+    elif c.get('layer') == 'function':
+        case = c['case']
+        for key in ('oracle', 'script'):
+            if key in case:
+                case[key] = int_keys(case[key])
+        if 'history' in case:
+            return False if 'records' not in case else bool(ctx.failures)   # a step of a history: replay the whole history instead
+        one_case(ctx, case, bool(c.get('stub')), sink)
+    else:
+        return False
+    return bool(ctx.failures)
